@@ -86,9 +86,9 @@ func (dst *Buffer[D]) Append(src *Buffer[D]) {
 	} else {
 		dst.data = dst.data[:offset+length]
 	}
-	for i := 0; i < length; i++ {
-		dst.SetSample(i+offset, src.Sample(i))
-	}
+	// copy has memmove semantics: src may be any view of dst's storage, even
+	// one that overlaps the samples written here.
+	copy(dst.data[offset:], src.data[:length])
 	alignCapacity(&dst.data, dst.Channels(), dst.Cap())
 }
 
